@@ -497,11 +497,14 @@ def c01(text, loader_name):
             if foreign: bad.append(dict(kind='unknown_tag_accepted', what='%s loaded a document carrying the non-core tag %r' % (loader_name, foreign[0]), loader=loader_name))
     return dict(bad=bad, outcome='ok')
 
-def c04(text, loader_name, named):
+def c04(text, loader_name, named, warm=None):
     """FullLoader / CFullLoader: no import, no call into code named by the document, result universe = plain + tuple + complex +
     attributes of already-imported modules named by python/name tags (`named` = dotted names occurring in the document)"""
     import yaml, types as _t
     from tools.values import show
+    if warm is not None and getattr(yaml, warm, None) is not None:
+        try: yaml.load(text, Loader=getattr(yaml, warm))          # harmless documents only (see tools/props/c04.py)
+        except Exception: pass
     allowed_ids = set()
     for nm in named:
         mod, _, attr = nm.rpartition('.')
@@ -695,6 +698,20 @@ def c12(encs, opts, be):
         j = 0
         while j < min(len(tk), len(txt)) and tk[j] == txt[j]: j += 1
         bad.append(dict(kind='depends_on_followers', what='the text of the first %d document(s) changes when more follow: %r vs %r' % (k, tk[max(0, j - 30):j + 30], txt[max(0, j - 30):j + 30]), text=txt[:6000], dumper=be)); break
+    # each document is written exactly as it is written on its own (anchor names, directives, markers are a function of the document alone):
+    # with explicit start and end markers forced the stream must be the concatenation of the single-document dumps
+    if len(docs) >= 2 and not bad:
+        o2 = dict(o); o2['explicit_start'] = True; o2['explicit_end'] = True
+        try:
+            full = _as_text(yaml.dump_all(docs, Dumper=D, **o2), o2)
+            parts = [_as_text(yaml.dump_all([d], Dumper=D, **o2), o2) for d in docs]
+            if o2.get('encoding') in ('utf-16-le', 'utf-16-be'): parts = [parts[0]] + [p.lstrip('\ufeff') for p in parts[1:]]
+            if ''.join(parts) != full:
+                j = 0; cat = ''.join(parts)
+                while j < min(len(cat), len(full)) and cat[j] == full[j]: j += 1
+                bad.append(dict(kind='depends_on_predecessors', what='a document is written differently inside a stream than alone: %r (alone) vs %r (in the stream)' % (cat[max(0, j - 30):j + 30], full[max(0, j - 30):j + 30]), text=full[:6000], dumper=be))
+        except Exception as e:
+            pass
     return dict(bad=bad, outcome='ok' if not bad else 'bad')
 
 def c12n(text, be):
